@@ -33,4 +33,13 @@ theorem code_uses_the_modelled_primitives :
     Generated.calls_database_toplevel = Model.CallGraph.calls_database_toplevel ∧
     Generated.callGraphTables = Model.CallGraph.callGraphTables := ⟨rfl, rfl, rfl, rfl, rfl, rfl, rfl⟩
 
+/-- the calls of every storage method are written in the order — and inside the branches, loops and handlers — in which the
+    I/O model (`Model/IO.lean`, `Model/IOSteps.lean`) has them: `Generated.order_storages_*` lists, per method, the calls in
+    source order with control-structure markers; two I/O calls swapped, or a call moved into or out of a branch or a
+    `finally`, changes the listing (the unordered call graph above does not see that) -/
+theorem storage_calls_in_the_modelled_order :
+    Generated.order_storages_Storage = Model.CallGraph.order_storages_Storage ∧
+    Generated.order_storages_CSVStorage = Model.CallGraph.order_storages_CSVStorage ∧
+    Generated.order_storages_MemoryStorage = Model.CallGraph.order_storages_MemoryStorage := ⟨rfl, rfl, rfl⟩
+
 end TinyFlux.Props.C15
